@@ -675,10 +675,10 @@ def units(tier, seed):
             us.append({'kind': 'enum', 'must': True, 'ntasks': 2, 'length': 3, 'mod': 16, 'rem': rem})
         n = 600
     else:
-        for rem in range(64):
-            us.append({'kind': 'enum', 'must': True, 'ntasks': 2, 'length': 4, 'mod': 64, 'rem': rem})
-        for rem in range(64):
-            us.append({'kind': 'enum', 'must': True, 'ntasks': 3, 'length': 3, 'mod': 64, 'rem': rem})
+        for rem in range(256):
+            us.append({'kind': 'enum', 'must': True, 'ntasks': 2, 'length': 5, 'mod': 256, 'rem': rem})
+        for rem in range(128):
+            us.append({'kind': 'enum', 'must': True, 'ntasks': 3, 'length': 4, 'mod': 128, 'rem': rem})
         n = 12000
     for k in range(n):
         us.append({'kind': 'explore', 'seed': seed, 'start': k * 50, 'count': 50})
@@ -707,5 +707,5 @@ def evidence(tier, seed, total):
         },
         'assumptions': ['the monitor (reference scheduler) in bacsim/props/c14.py is correct', 'recurring slots are checked with a 2 microsecond tolerance (the code adds 1 microsecond of jitter itself)',
                         'never-early and slot clauses are not evaluated after a backward clock step',
-                        'exhaustive enumeration is bounded as stated (length 3-4), shorter than the property\'s length 7'],
+                        'exhaustive enumeration is bounded (quick: length 3 over 2 tasks; thorough: length 5 over 2 tasks, length 4 over 3 tasks), shorter than the property\'s length 7'],
     }
